@@ -74,6 +74,28 @@ theorem spec_next : Spec next
   obtain ⟨h1, _, h3⟩ := next_abs s hw hl0 hpk u σ' hσ
   exact ⟨h1, h3⟩
 
+/-- `next` on a filled look-ahead returns the look-ahead token, whatever it is -/
+theorem spec_next_head : Spec next (fun t a _ => a.pk = true → t = a.σ.head) := by
+  intro s hw hl
+  simp only [next, run] at hl ⊢
+  refine ⟨next_wf s hl, fun hpk => ?_⟩
+  have hl0 : dead s = false := by
+    cases hd : dead s
+    · rfl
+    · have := (next_spec 0 s).1
+      rw [mu_dead hd] at this
+      rw [dead_of_mu (by omega)] at hl; cases hl
+  have hp : s.peeked = true := hpk
+  have : s.next 0 = (s.peekTok, s.takePeeked) := by
+    simp [PState.next, live_isSome hl0, overLimit, hp]
+  rw [this]
+  exact (head_sig_raw hw hp).symm
+
+theorem Spec.and {α : Type} {p : Prog α} {R1 R2 : α → AS → AS → Prop} (h1 : Spec p R1) (h2 : Spec p R2) :
+    Spec p (fun x a a' => R1 x a a' ∧ R2 x a a') := by
+  intro s hw hl
+  exact ⟨(h1 s hw hl).1, (h1 s hw hl).2, (h2 s hw hl).2⟩
+
 theorem spec_hasErr : Spec hasErr (fun b a a' => b = false ∧ a' = a) := by
   intro s hw hl
   have : run 0 hasErr s = (s.err.isSome, s) := rfl
